@@ -110,7 +110,7 @@ def gen_uint(rng):
 
 
 def gen_date_value(rng, gi):
-    y = rng.choice([0, 1, 33, 1999, 2014, 9999, 10000, 65535])
+    y = rng.choice([0, 1, 33, 1900, 1999, 2000, 2014, 2016, 9999, 10000, 65535])
     m = rng.choice([0, 1, 2, 6, 12, 13])
     d = rng.choice([0, 1, 15, 28, 29, 30, 31, 32])
     if rng.random() < 0.6:
@@ -249,6 +249,35 @@ def g_track(t):
             f"{g_opt(None if t.musicbrainz_id is None else str(t.musicbrainz_id), g_str)} {g_opt(t.date, g_str)} {g_opt(t.album, g_album)})")
 
 
+def g_gvalue(v, gi):
+    """A raw taglist value as a Tags.gvalue term (None: a type the model does not cover)."""
+    if isinstance(v, bool):
+        return None
+    if isinstance(v, str):
+        return f"(GStr {g_str(v)})"
+    if isinstance(v, bytes):
+        return f"(GBytes {g_str(v.decode(errors='replace'))})"
+    if isinstance(v, int):
+        return f"(GUInt {g_z(v)})"
+    if isinstance(v, gi.GLib.Date):
+        return f"(GDate {g_z(v.get_year())} {g_z(v.get_month())} {g_z(v.get_day())})"
+    if isinstance(v, gi.Gst.DateTime):
+        return f"(GDateTime {g_str(v.to_iso8601_string())})"
+    return None
+
+
+def g_raw(items, gi):
+    out = []
+    for k, vals in items:
+        if k not in KEYS:
+            continue
+        terms = [g_gvalue(v, gi) for v in vals]
+        if any(t is None for t in terms):
+            return None
+        out.append(g_pair(KEYS[k], g_list(terms)))
+    return g_list(out)
+
+
 def header():
     return (
         vlib.COQ_HEADER
@@ -316,6 +345,7 @@ def run(chk, fx=FX):
         {"title": [5]}, {"album": [5]}, {"artist": [5]}, {"track-number": []}, {"musicbrainz-sortname": [], "artist": ["x"]}, {"datetime": [5]}, {"album": [""], "date": ["x"]},
     ]
     cases = [("direct", d) for d in corpus]
+    raw_rows = []  # convert_taglist: (raw taglist term, dict term)
     for _ in range(n):
         if rng.random() < 0.75:
             items, faulty = gen_taglist(rng, gir)
@@ -330,6 +360,10 @@ def run(chk, fx=FX):
                 chk.monitor_failure("taglist_total", {"call": "convert_taglist", "exc": type(exc).__name__},
                                     f"convert_taglist raised {type(exc).__name__}", {"items": repr(payload)})
                 continue
+            raw = g_raw(payload, gir)
+            if raw is not None:
+                raw_rows.append((raw, g_tags(d), payload, d))
+                chk.dist("taglist:dates-dropped" if len(d.get("date", [])) < sum(len(v) for k, v in payload if k == "date") else "taglist:all-kept")
         else:
             d = payload
         in_domain = typed(d)
@@ -391,4 +425,22 @@ def run(chk, fx=FX):
             chk.monitor_failure("track_ok_b", {"call": "convert_tags_to_track"}, "Gallina predicate track_ok_b is false on the implementation's track",
                                 {"tags": repr(c["tags"])})
     chk.obligation("corr:tags", "correspondence", ok)
+    # convert_taglist against Tags.convert_taglist
+    hdr = (vlib.COQ_HEADER + "From Common Require Import Res Str Cases.\nFrom Untrusted Require Import Base Tags.\n"
+           + "Definition ok (c : list (tagkey * list gvalue) * tags) : bool := tags_eqb (convert_taglist (fst c)) (snd c).\n")
+    shards = [raw_rows[i : i + 500] for i in range(0, len(raw_rows), 500)]
+    texts = [hdr + "Definition cases : list (list (tagkey * list gvalue) * tags) :=\n " + g_list([g_pair(r, t) for r, t, _p, _d in s])
+             + ".\nEval vm_compute in mismatches ok cases.\n" for s in shards]
+    ok2 = True
+    for shard, (rc, out) in zip(shards, vlib.coq_eval_many(AREA, texts, jobs=12)):
+        bad = vlib.parse_nat_list(out)
+        if rc != 0 or bad is None:
+            ok2 = False
+            chk.corr_failure("taglist", {"shard": "coq evaluation failed"}, out[-1500:])
+            continue
+        for i in bad:
+            ok2 = False
+            chk.corr_failure("taglist", {"items": repr(shard[i][2])[:600], "impl": repr(shard[i][3])[:600]})
+    chk.count(len(raw_rows))
+    chk.obligation("corr:taglist", "correspondence", ok2)
     return rows
